@@ -18,7 +18,7 @@ LEVEL = 'exploration'
 RULE = ('full product: 14 list kinds (single / same layout / nested, interleaved and disjoint configuration subsets / replica '
         'subsets / two ensembles / covariance inputs dim 1..3 shared or not / count data with zeros / a sample equal to the '
         'mean / strided and large configuration numbers / 4-entry mixtures) x separator_insertion {True, None, False, int, str} '
-        'x {string, file gz, file plain} for dobs; every 2- and 3-subset (thorough: 4-subset) of a 13-observable pool in one file; 6 list kinds x {None, int, str} x {gz, plain} for pobs.  Non-trivial = '
+        'x {string, file gz, file plain} for dobs; every 2- and 3-subset (thorough: 4-subset) of a 17-observable pool (incl. trap pairs: same length and end points, different interior) in one file; 6 list kinds x {None, int, str} x {gz, plain} for pobs.  Non-trivial = '
         'every case except the single-observable single-chain list')
 ASSUMPTIONS = ['names are compared exactly when the separator mode restores the "|", else after removing "|" (documented treatment)',
                'covariance matrices / gradients to 1e-12 relative (the format prints 15 digits), fluctuations to 1e-13 of the chain scale']
@@ -93,7 +93,8 @@ def combo_pool(pe):
     P = [prim(pe, {'A|r1': 'c12'}, 'q0'), prim(pe, {'A|r1': 'c8'}, 'q1'), prim(pe, {'A|r1': 'ev'}, 'q2'), prim(pe, {'A|r1': 'od'}, 'q3'),
          prim(pe, {'A|r1': 'irr', 'A|r2': 'c8'}, 'q4'), prim(pe, {'A|r2': 'g2'}, 'q5'), prim(pe, {'A|r10': 's3', 'A|r2': 'suf'}, 'q6'),
          prim(pe, {'B|r1': 'trA'}, 'q7'), prim(pe, {'B|r1': 'trB', 'B|r2': 'c5'}, 'q8'), prim(pe, {'A|r1': 'c12'}, 'q9', 'count'),
-         prim(pe, {'A|r1': 'sh'}, 'q10') * cv1, cv2[0] * prim(pe, {'B|r2': 'big'}, 'q11') + cv2[1], cv2[1] * cv1 + prim(pe, {'A|r1': 'irr2'}, 'q12')]
+         prim(pe, {'A|r1': 'sh'}, 'q10') * cv1, cv2[0] * prim(pe, {'B|r2': 'big'}, 'q11') + cv2[1], cv2[1] * cv1 + prim(pe, {'A|r1': 'irr2'}, 'q12'),
+         prim(pe, {'A|r1': 'eqC'}, 'q13'), prim(pe, {'A|r1': 'eqD'}, 'q14'), prim(pe, {'A|r2': 'eqA'}, 'q15'), prim(pe, {'A|r2': 'eqB'}, 'q16')]
     return P
 
 
@@ -162,7 +163,7 @@ def build(tier, seed):
     cases += [{'kind': 'pobs', 'list': k} for k in ['single', 'three', 'replicas', 'count-zeros', 'big', 'bare-name']]
     ks = (2, 3) if tier == 'quick' else (2, 3, 4)
     for k in ks:
-        combos = list(itertools.combinations(range(13), k))
+        combos = list(itertools.combinations(range(17), k))
         for i in range(0, len(combos), 12):
             cases.append({'kind': 'combos', 'combos': [list(c) for c in combos[i:i + 12]]})
     return cases
@@ -272,7 +273,7 @@ def run_pobs(pe, acc, case, d):
 
 
 def run_combos(pe, acc, case):
-    """Every k-subset of a 13-observable pool written into one file (string transport, default separator mode)."""
+    """Every k-subset of a 17-observable pool (incl. trap pairs: same length and end points, different interior) written into one file (string transport, default separator mode)."""
     P = combo_pool(pe)
     for combo in case['combos']:
         ol = [P[i] for i in combo]
